@@ -72,10 +72,18 @@ def jobs(tier):
         {"name": "jpl-pck", "n": n, "eop": "real", "jpl": "pck", "mode": "pairs", "create": "explicit"},
         {"name": "jpl-dynamic", "n": nd, "eop": "real", "jpl": "pck", "mode": "pairs", "create": "dynamic"},
         {"name": "sunmoon", "n": ns, "eop": "real", "jpl": "bsp", "mode": "sunmoon"},
+        # history: the built-in analytical frames of the Sun / Moon (beyond.env.solarsystem) exist in the same process as the
+        # frames created from the kernel (an eclipse listener next to JPL frames), in either order of creation
+        {"name": "mixed-analytical-first", "n": 24 if tier == "quick" else 400, "eop": "real", "jpl": "bsp", "mode": "mixed", "order": "analytical-first"},
+        {"name": "mixed-kernel-first", "n": 24 if tier == "quick" else 400, "eop": "real", "jpl": "bsp", "mode": "mixed", "order": "kernel-first"},
     ]
 
 
 def requirements(tier):
+    return dict(_requirements(tier), **{"history:same-reading-other-scale": 20, "mixed:compared": 150})
+
+
+def _requirements(tier):
     q = tier == "quick"
     return {
         "pairs:zero-state": 240 * (100 if q else 2000),
@@ -143,6 +151,19 @@ def setup(ctx, job):
         ctx.count("config:" + job["jpl"])
         st["created"] = job["create"] != "dynamic"
         st["parent"] = {t: c for (c, t) in K.segs}
+    elif job["mode"] == "mixed":
+        from beyond.env import jpl, solarsystem
+
+        steps = [lambda: (solarsystem.get_frame("Moon"), solarsystem.get_frame("Sun")), jpl.create_frames]
+        if job["order"] == "kernel-first":
+            steps.reverse()
+        for f in steps:
+            f()
+        st["parent"] = {t: c for (c, t) in K.segs}
+        # mechanism monitor: is one of the analytical propagators consulted while a vector between kernel frames is computed?
+        st["analytic_calls"] = []
+        st["probes"] = [probe.attach(cls_, "propagate", pre=lambda a, k, n_=cls_.__name__: st["analytic_calls"].append(n_))
+                        for cls_ in (solarsystem.SunPropagator, solarsystem.MoonPropagator)]
     else:
         from beyond.env import solarsystem
 
@@ -222,10 +243,58 @@ def run_case(ctx, job, idx, rng, st):
         return
     if job["mode"] == "pairs":
         return run_pairs(ctx, job, idx, rng, st)
+    if job["mode"] == "mixed":
+        return run_mixed(ctx, job, idx, rng, st)
     return run_sunmoon(ctx, job, idx, rng, st)
 
 
-def run_pairs(ctx, job, idx, rng, st):
+def run_mixed(ctx, job, idx, rng, st):
+    """Vectors between the frames created from the kernel, asked for by NAME, in a process where the analytical Sun / Moon
+    frames of beyond.env.solarsystem were created too (before or after).  Expected: the chained kernel segments, as in the
+    'pairs' jobs.  A result that is the analytical series instead has its own key (known finding: the two registries share
+    frame and node names and routing is by name)."""
+    from beyond.dates import Date
+    from beyond.env import jpl, solarsystem
+    from beyond.orbits import StateVector
+
+    K, names = st["K"], st["names"]
+    lo = max(K.start_jd - 2400000.5 + 1, MJD_2000 + 1)
+    hi = min(K.end_jd - 2400000.5 - 1, UTC_MAX_MJD)
+    scale, d, s = gen_instant(rng, idx, job["n"], lo, hi)
+    descr = {"scale": scale, "mjd_day": d, "seconds": s, "order": job["order"]}
+    ctx.case(descr)
+    date = Date(d, s, scale=scale)
+    lib_tdb = date.change_scale("TDB")
+    seg = K.all_segments(float(lib_tdb.jd))
+    ids = {names[b]: b for b in K.bodies}
+    pairs = [("Earth", "Moon"), ("Moon", "Earth"), ("Earth", "Sun"), ("Sun", "Earth"), ("Moon", "Sun"), ("Sun", "Moon"), ("Earth", "MarsBarycenter"),
+             ("Venus" if "Venus" in ids else "VenusBarycenter", "Earth")]
+    for origin, target in pairs:
+        if origin not in ids or target not in ids:
+            continue
+        # zero state of frame `target` seen from frame `origin` = vector(target relative to origin)
+        del st["analytic_calls"][:]
+        try:
+            got = probe.arr(StateVector([0.0] * 6, date, "cartesian", target).copy(frame=origin))
+        except Exception as exc:
+            ctx.violation("C18/frame-conversion-raises-mixed-registries", dict(descr, src=target, dst=origin, exc=repr(exc)), f"{target} -> {origin} raised {exc!r}")
+            continue
+        exp, L, Lv = K.state(ids[target], ids[origin], None, cache=seg)
+        dp = float(np.linalg.norm(got[:3] - exp[:3]))
+        tp = 1e-3 + 1e-12 * L
+        ctx.count("mixed:compared")
+        key = "C18/jpl-vector-mismatch-mixed-registries"
+        consulted = sorted(set(st["analytic_calls"]))
+        if consulted:
+            ctx.count("mixed:analytical-propagator-consulted")
+        if dp > tp and consulted:
+            key = "C18/kernel-frames-answer-with-the-analytical-series-once-solarsystem-frames-exist"
+        ctx.resid("mixed:pos (m)", dp, tp, key=key, witness=dict(descr, origin=origin, target=target, got=got.tolist(), expected=exp.tolist(), analytical_propagators_consulted=consulted),
+                  msg=f"{job['order']}: {target} relative to {origin} by frame name: {dp:.6g} m from the chained kernel segments"
+                      + (f" ({', '.join(consulted)} consulted on the way)" if consulted else ""))
+
+
+def run_pairs(ctx, job, idx, rng, st, twin=None):
     from beyond.dates import Date
     from beyond.env import jpl
     from beyond.orbits import StateVector
@@ -241,9 +310,16 @@ def run_pairs(ctx, job, idx, rng, st):
         scale, d = "TDB", int(math.floor(edge))
         s = round((edge - d) * 86400.0, 6)
         ctx.count("instant:kernel-span-" + ("first" if idx == 1 else "last"))
+    if twin is not None:
+        # history: the SAME clock reading under another scale label, i.e. another instant, asked for straight after
+        scale, d, s = twin
     descr = {"scale": scale, "mjd_day": d, "seconds": s}
-    ctx.case(descr)
-    ctx.count("scale:" + scale)
+    if twin is None:
+        ctx.case(descr)
+        ctx.count("scale:" + scale)
+    else:
+        descr["history"] = "asked straight after the same clock reading under another scale label"
+        ctx.count("history:same-reading-other-scale")
     date = Date(d, s, scale=scale)
 
     # ---- time argument: own TDB of the instant vs the library's --------------------------------
@@ -328,7 +404,7 @@ def run_pairs(ctx, job, idx, rng, st):
     bodies = K.bodies
     zero = [0.0] * 6
     nz = 0
-    if idx % 2 == 0:
+    if idx % 2 == 0 and twin is None:
         # ---- history: what get_orbit handed out is the caller's to re-express IN PLACE (frame / form setters); the
         # vectors asked for afterwards at the same date -- the whole pair matrix below -- must not notice
         for A in rng.sample([b for b in bodies if b in st["parent"]], min(4, len(st["parent"]))):
@@ -410,6 +486,11 @@ def run_pairs(ctx, job, idx, rng, st):
                     ctx.violation("C18/frame-conversion-raises", dict(descr, src=names[A], dst=names[B], exc=repr(exc), method="get_orbit.copy"),
                                   f"get_orbit({names[A]}).copy(frame={names[B]}) raised {exc!r}")
     ctx.count("pairs-per-date-evaluated", nz)
+    if twin is not None:
+        return
+    if idx % 3 == 0 and idx not in (1, 2):
+        others = [x for x in ("TDB", "TT", "TAI", "GPS") + (("UTC",) if (MJD_2000 + 1 <= d <= UTC_MAX_MJD and not jpl_ref.near_leap(d, 1.5)) else ()) if x != scale]
+        run_pairs(ctx, job, idx, rng, st, twin=(rng.choice(others), d, s))
 
     # ---- tabulation routes of a kernel orbit: on UTC dates, across a leap second every other time
     if idx % 4 == 3:
@@ -641,6 +722,8 @@ def run_sunmoon(ctx, job, idx, rng, st):
 
 
 def finish(ctx, job, st):
+    for p_ in st.get("probes", []):
+        p_.remove()
     try:
         st["K"].close()
     except Exception:
